@@ -190,7 +190,7 @@ def replay_concrete(c):
             return expression.constant_value()
 
     w = W()
-    e = Plus(Int(1), Plus(Int(2), Int(13)))
+    e = Plus(Plus(Int(2), Int(13)), Int(1))     # Int(1) is memoized before the handler of Int(13) raises
     try:
         w.walk(e)
         return {"reproduced": False, "concrete": c, "observed": "handler did not raise"}
